@@ -103,10 +103,21 @@ def parseREvs (s : String) : Option (List REv) :=
 /-- `a<k>` accept at most k octets, `p` pending, `f` fail -/
 def parseWEvs (s : String) : Option (List WEv) :=
   if s = "-" then some [] else
-  (s.splitOn ",").mapM fun t =>
-    -- `i`: the call fails with `Interrupted` - for `write_all` a failure like any other (nothing writes afterwards)
-    if t = "p" then some .pending else if t = "f" || t = "i" then some .fail
-    else if t.startsWith "a" then (t.drop 1).toString.toNat?.map .accept else none
+  -- `i`: the call fails with `Interrupted` - for `write_all` a failure like any other (nothing writes afterwards)
+  -- `F<n>`: everything is taken until n octets are on the stream in total, the next call fails: for this model, whose
+  -- `write_all` offers all that is left at every call, that is "accept what is missing to n, then fail"
+  (s.splitOn ",").foldl (fun (acc : Option (List WEv × Nat)) t =>
+    match acc with
+    | none => none
+    | some (evs, total) =>
+      if t = "p" then some (evs ++ [.pending], total)
+      else if t = "f" || t = "i" then some (evs ++ [.fail], total)
+      else if t.startsWith "a" then
+        (t.drop 1).toString.toNat?.map fun k => (evs ++ [.accept k], total + k)
+      else if t.startsWith "F" then
+        (t.drop 1).toString.toNat?.map fun n =>
+          if n > total then (evs ++ [.accept (n - total), .fail], n) else (evs ++ [.fail], total)
+      else none) (some ([], 0)) |>.map (·.1)
 
 def sdecLine (cfg : Cfg) (dict : Lookup) (n : Nat) (evs : List REv) : String :=
   String.intercalate ";" ((decodeSeqAll cfg dict n evs).map fun (o, used) =>
